@@ -227,14 +227,43 @@ fn gen_plan(id: &str, seed: u64, _run: u64, tier: Tier) -> PlanA {
             inst.len = *rng.pick(&[1u32, 2, 2, 3, 3, 4, 5, 6, 8, 8, 16, 16, 33, 64]);
             let bits = inst.len as usize;
             let k = 1 + rng.usize_below(3);
-            let byz = rng.chance(1, 2);
-            let mut p = base_plan(inst, if byz { "byz" } else { "tamper" }, rng, k);
+            let style = rng.below(10);
+            let byz = style < 5;
+            let both = style == 9;
+            let mut p = base_plan(inst, if byz || both { "byz" } else { "tamper" }, rng, k);
             p.timeouts = true;
             let inputs: Vec<Vec<N>> = p.reports.iter().map(|r| r.meas.clone()).collect();
             // candidates: usually include the victim's path
             p.aps = crate::inst_poplar::gen_ap_history(rng, &p.inst, &inputs, 2, 6);
+            // "split the one" over a long candidate list (> 32 candidates): a dedicated shape
+            let split = byz && bits >= 8 && rng.chance(1, 3);
+            if split {
+                let victim = 0usize;
+                // an inner level (prefix shorter than the input)
+                let plen = 7 + rng.usize_below((bits - 7).min(3));
+                let dist = *rng.pick(&[32usize, 32, 32, 1, 16, 31, 33, 40]);
+                let half = 1usize << (plen - 1);
+                let first_bit = rng.chance(1, 2);
+                // rank of the on-path prefix inside its half, leaving room for `dist - 1` neighbours
+                let rank = if first_bit { dist - 1 + rng.usize_below(half - dist + 1) } else { rng.usize_below(half - dist + 1) };
+                let to_bits = |first: bool, r: usize| -> String { std::iter::once(if first { '1' } else { '0' }).chain((0..plen - 1).map(|i| if (r >> (plen - 2 - i)) & 1 == 1 { '1' } else { '0' })).collect() };
+                let ppre = to_bits(first_bit, rank);
+                let dpre = to_bits(!first_bit, rng.usize_below(half));
+                let mut cands: Vec<String> = if first_bit { (rank + 1 - dist..rank).map(|r| to_bits(true, r)).collect() } else { (rank + 1..rank + dist).map(|r| to_bits(false, r)).collect() };
+                cands.push(ppre.clone());
+                cands.push(dpre);
+                cands.sort();
+                p.aps = vec![cands];
+                // the Byzantine client picks its own measurement: put it on that path
+                let mut m: Vec<N> = ppre.bytes().map(|c| N((c == b'1') as u128)).collect();
+                while m.len() < bits {
+                    m.push(N(rng.below(2) as u128));
+                }
+                p.reports[victim].meas = m;
+                p.reports[victim].byz.push(ByzEdit::SplitOne { flip_level: 0, dist: dist as u16 });
+            }
             let naps = p.aps.len() as u32;
-            if byz {
+            if (byz || both) && !split {
                 let victim = rng.usize_below(k);
                 let ne = if rng.chance(3, 4) { 1 } else { 2 };
                 for _ in 0..ne {
@@ -249,14 +278,20 @@ fn gen_plan(id: &str, seed: u64, _run: u64, tier: Tier) -> PlanA {
                     };
                     p.reports[victim].byz.push(e);
                 }
-            } else {
+            }
+            if !byz {
                 let nf = if rng.chance(7, 10) { 1 } else { 2 + rng.usize_below(2) };
                 for _ in 0..nf {
                     let rep = rng.below(k as u64) as u32;
                     let ap = rng.below(naps as u64) as u32;
                     let j = rng.below(2) as u8;
                     let round = rng.below(2) as u8;
-                    let f = match rng.below(12) {
+                    let f = match rng.below(14) {
+                        12 | 13 => {
+                            // the verifier message altered before fan-out; emptied now and then
+                            let m = if rng.chance(1, 2) { Mutation::Trunc { keep: 0 } } else { gen_mutation(rng, false) };
+                            Fault { kind: EnvKind::VMsg, rep, ap, from: COMBINER, to: 0, round, at_source: true, act: Act::Mutate { part: 0, m } }
+                        }
                         0 => Fault { kind: EnvKind::Upload, rep, ap: 0, from: CLIENT, to: 0, round: 0, at_source: true, act: Act::Mutate { part: 0, m: gen_mutation(rng, false) } },
                         1 => Fault { kind: EnvKind::Upload, rep, ap: 0, from: CLIENT, to: j, round: 0, at_source: false, act: Act::Mutate { part: 0, m: gen_mutation(rng, false) } },
                         2..=4 => Fault { kind: EnvKind::Upload, rep, ap: 0, from: CLIENT, to: j, round: 0, at_source: false, act: Act::Mutate { part: 1, m: gen_mutation(rng, false) } },
@@ -494,8 +529,11 @@ impl<'a> Visitor for ExecVis<'a> {
                 ctx.probe("bound_2k");
             }
         }
-        let pass = World::<V, A, VK>::new(vdaf, ad, plan, &mut ctx, &plan.vk.0)?.run();
-        ctx.events += 0;
+        let pass = match World::<V, A, VK>::new(vdaf, ad, plan, &mut ctx, &plan.vk.0) {
+            Ok(w) => w.run(),
+            Err(e) if e == "VIOLATION-RECORDED" => return Ok(ctx.finish()),
+            Err(e) => return Err(e),
+        };
         // outcome class into the signature
         for f in &plan.faults {
             ctx.sig.str(&format!("{:?}{:?}", f.kind, std::mem::discriminant(&f.act)));
@@ -823,13 +861,25 @@ impl Check for CheckA {
         })
     }
     fn gen(&self, seed: u64, run: u64, tier: Tier) -> Value {
+        if let Some(p) = xof_plan(self.id, seed) {
+            return json!({ "xof": p });
+        }
         serde_json::to_value(gen_plan(self.id, seed, run, tier)).unwrap()
     }
     fn exec(&self, plan: &Value, counters: &mut Counters) -> Result<RunOut, String> {
+        if let Some(x) = plan.get("xof") {
+            let p: crate::checks_c11::Plan11 = serde_json::from_value(x.clone()).map_err(|e| format!("bad plan: {e}"))?;
+            return exec_xof_plan(self.id, &p, counters);
+        }
         let plan: PlanA = serde_json::from_value(plan.clone()).map_err(|e| format!("bad plan: {e}"))?;
         exec_plan_a(self.id, self.accept, &plan, counters)
     }
     fn gen_exec(&self, seed: u64, run: u64, tier: Tier, counters: &mut Counters) -> Result<(RunOut, Option<Value>), String> {
+        if let Some(p) = xof_plan(self.id, seed) {
+            let out = exec_xof_plan(self.id, &p, counters)?;
+            let keep = out.violation.is_some();
+            return Ok((out, if keep { Some(json!({ "xof": p })) } else { None }));
+        }
         let plan = gen_plan(self.id, seed, run, tier);
         let out = exec_plan_a(self.id, self.accept, &plan, counters)?;
         let keep = out.violation.is_some();
@@ -853,6 +903,9 @@ impl Check for CheckA {
         out
     }
     fn shrink(&self, plan: &Value) -> Vec<Value> {
+        if plan.get("xof").is_some() {
+            return Vec::new();
+        }
         let Ok(p) = serde_json::from_value::<PlanA>(plan.clone()) else { return Vec::new() };
         shrink_plan_a(&p).into_iter().map(|x| serde_json::to_value(x).unwrap()).collect()
     }
@@ -881,6 +934,28 @@ impl Check for CheckA {
             "stub": ["transport (in-memory queue of byte envelopes)", "durable store (encoded bytes per node)", "scheduler / fault injector", "aggregator, combiner, collector drivers", "Evil<T> measurement encoder (identity) for the Byzantine client", "simrayon single-thread stand-in for rayon (multithreaded variants)"]
         })
     }
+}
+
+/// C01 / C03 borrow the stream world's "spliced rejections" runs (one run in 25): a whole honest
+/// protocol run over SimXof in which every party sees extra over-modulus chunks in the streams of
+/// one derivation, so sampling across rejections must agree between client and aggregators.
+fn xof_plan(id: &str, seed: u64) -> Option<crate::checks_c11::Plan11> {
+    if id != "C01" && id != "C03" {
+        return None;
+    }
+    let mut rng = Rng::new(seed ^ 0x5eed_0f_0a11);
+    if !rng.chance(1, 25) {
+        return None;
+    }
+    Some(crate::checks_c11::gen_rejections(&mut rng, id == "C03"))
+}
+
+fn exec_xof_plan(id: &'static str, p: &crate::checks_c11::Plan11, counters: &mut Counters) -> Result<RunOut, String> {
+    let mut out = crate::checks_c11::exec_top_with(p, counters, &["C11.rejections", "panic"])?;
+    if let Some(v) = out.violation.as_mut() {
+        v.oracle = v.oracle.replace("C11.", &format!("{id}."));
+    }
+    Ok(out)
 }
 
 pub fn exec_plan_a(id: &'static str, accept: &'static [&'static str], plan: &PlanA, counters: &mut Counters) -> Result<RunOut, String> {
